@@ -160,6 +160,10 @@ class Executor(CallMixin, EvalMixin, ExprMixin, StmtMixin):
             d = a[0]
             if isinstance(d.ty, T.Opt): d = SV(d.ty.t, T.opt_val(d.ty, d.t))
             return SV(T.Set(d.ty.k), T.dict_dom(d.ty, d.t))
+        if name == "floor":
+            return SV(T.Int, z3.ToInt(self.coerce(a[0], T.Real).t))
+        if name == "py_str_float":
+            return self.to_str(st, self.coerce(a[0], T.Real))
         if name == "joined":
             return SV(T.Str, self.joined(a[0].t))
         if name == "is_perm":
@@ -247,10 +251,10 @@ class Executor(CallMixin, EvalMixin, ExprMixin, StmtMixin):
                 fam = R.CLASS_FAMILY.get("%s:%s" % (module, cls))
                 if fam is None:
                     here = "%s:%s" % (module, cls)
-                    for f_, sch_ in R.SCHEMAS.items():
-                        for cq in sch_.classes:
-                            if cq.startswith("ext:"): continue
-                            if here in ["%s:%s" % (m_, n_.name) for m_, n_ in X.mro(*cq.split(":"))]: fam = f_
+                    for cq, f_ in R.CLASS_FAMILY.items():      # the registered (primary) schema of a class that inherits this method
+                        if cq.startswith("ext:"): continue
+                        if here in ["%s:%s" % (m_, n_.name) for m_, n_ in X.mro(*cq.split(":"))]:
+                            fam = f_; break
                 if fam is None: raise VCError("%s: no schema for class %s (self_type missing)" % (c.qual, cls))
                 sty = T.Obj(fam)
             selfv = SV(sty, fresh("self", sty), cls=c.ghost.get("self_class"))
